@@ -9,6 +9,9 @@
 //   end
 // acts: wake:<d|a|r|x|p>:<ids> detach:<d|a|r|x|p>:<id> gather:<d|a>:<ids> park parkn parkp wakep:<id> pause swap
 //       start:<id> startc:<id> spawn:<id> call:<id> join:<id> hop hopc fwait end enter leave leavex gnext:<id> gyield
+//       awaits:<ids>:<ids>
+//   awaits:<pre>:<post>: `sp = <make pre ready>; sp << co_await self(); sp << <make post ready>; co_await sp;` - the awaited suspend
+//   point holds the awaiting coroutine's own handle (self.h) behind the handles of <pre>, before those of <post> (either may be empty)
 //   gnext:<id>: synchronous access to the coroutine <id> as a cocls::generator<int> (created by the first access; the body runs the
 //   script of <id>): bool(gen.next()) (id % 3 == 0), gen() (== 1) or gen.next().subscribe(awaiter) (== 2). Only a generator whose body
 //   has not started or is suspended in co_yield is accessed. gyield: co_yield in a generator body (a no-op in any other coroutine)
@@ -40,6 +43,7 @@
 #include <cocls/generator.h>
 #include <cocls/mutex.h>
 #include <cocls/queue.h>
+#include <cocls/self.h>
 
 // ---- std::thread as seen by resume.h -------------------------------------------------------------------------------
 namespace vhx {
@@ -72,13 +76,14 @@ struct verif_thread {
 using namespace cocls;
 
 enum Kind { WAKE, PARK, PARKN, PARKP, WAKEP, PAUSE, SWAP, START, STARTC, SPAWN, CALL, JOIN, HOP, HOPC, FWAIT, END, ENTER, LEAVE,
-            LEAVEX, GNEXT, GYIELD, BAD };
+            LEAVEX, GNEXT, GYIELD, AWAITS, BAD };
 
 struct Act {
     Kind k = BAD;
     char mode = 'd';
     bool rev = false;
     std::vector<int> ids;
+    std::vector<int> ids2;  // AWAITS: the targets behind the own handle
     int d = -1;
 };
 
@@ -124,6 +129,10 @@ static Act parse_act(const std::string &tok) {
         a.k = WAKE;
         a.mode = parse_mode(p[1], false);
         for (auto &x : split_on(p[2], ',')) { int v; if (to_nat(x, v)) a.ids.push_back(v); }
+    } else if (k == "awaits" && p.size() == 3) {
+        a.k = AWAITS;
+        for (auto &x : split_on(p[1], ',')) { int v; if (to_nat(x, v)) a.ids.push_back(v); }
+        for (auto &x : split_on(p[2], ',')) { int v; if (to_nat(x, v)) a.ids2.push_back(v); }
     } else if (p.size() == 1 && k == "park") a.k = PARK;
     else if (p.size() == 1 && k == "parkn") a.k = PARKN;
     else if (p.size() == 1 && k == "parkp") a.k = PARKP;
@@ -445,6 +454,15 @@ static R body_t(int id) {
             }
             case WAKEP: {
                 wake_parallel(a.d);
+                break;
+            }
+            case AWAITS: {
+                suspend_point<void> sp = collect(a.ids);
+                sp << co_await self();
+                sp << collect(a.ids2);
+                suspending(id);
+                co_await sp;
+                resumed(id);
                 break;
             }
             case PARK: {
